@@ -853,6 +853,9 @@ func (p *Prog) StructFields(v ssa.Value) map[string]string {
 // FieldsAt is StructFields for a pointer to a local struct cell (e.g. the
 // argument &T{...} of a call): field origins as they reach instruction at.
 func (p *Prog) FieldsAt(ptr ssa.Value, at ssa.Instruction) map[string]string {
+	if mi, ok := ptr.(*ssa.MakeInterface); ok {
+		ptr = mi.X
+	}
 	l, ok := addrLoc(ptr)
 	if !ok {
 		return nil
